@@ -127,6 +127,11 @@ inline void arena_garbage(mjData* d, uint64_t seed) {
 }
 inline mjData* make_data(const mjModel* m, uint64_t seed) {
   mjData* d = mj_makeData(m);
+#if defined(__has_feature)
+#if __has_feature(address_sanitizer)
+  return d;   // ASan build: the engine poisons the arena itself, which serves the same purpose (and forbids the write)
+#endif
+#endif
   if (d) arena_garbage(d, seed);
   return d;
 }
